@@ -36,7 +36,9 @@ type c19Case struct {
 	Groups []int `json:"groups,omitempty"`
 }
 
-var interestingI64 = []int64{0, 1, -1, 2, 7, 100, math.MaxInt64, math.MinInt64, math.MaxInt64 - 1, 1 << 32, -(1 << 40)}
+// incl. the values around which the zigzag varint of the Compact protocol grows by a byte
+var interestingI64 = []int64{0, 1, -1, 2, 7, 100, math.MaxInt64, math.MinInt64, math.MaxInt64 - 1, 1 << 32, -(1 << 40),
+	63, 64, -64, -65, 8191, 8192, -8192, -8193, 1<<20 - 1, 1 << 20, -(1 << 20), -(1 << 20) - 1, 1<<27 - 1, 1 << 27, 1<<34 - 1, 1 << 34}
 var interestingF64 = []float64{0, math.Copysign(0, -1), 1, -1, 0.5, 1e300, -1e300, math.MaxFloat64, -math.MaxFloat64,
 	math.SmallestNonzeroFloat64, math.Inf(1), math.Inf(-1), math.NaN(), math.Float64frombits(0x7ff8000000000123), 3.141592653589793}
 
@@ -453,6 +455,10 @@ func init() {
 					if got, f := c19Overlap(sp.Cached, sp.Children, sp.Flushes, sp.Held); f != "" {
 						ctx.Fail("every_flush_reaches_every_child_once", f, sp, got)
 					}
+				case "first-calls-at-once":
+					if f := c19FirstCalls(sp.Cached, 3000); f != "" {
+						ctx.Fail("every_flush_reaches_every_child_once", f, sp, nil)
+					}
 				case "child-listed-twice":
 					if f := c19Dup(sp.Pos); f != "" {
 						ctx.Fail("every_child_sees_every_call_once_in_order", f, sp, nil)
@@ -492,6 +498,14 @@ func init() {
 			ctx.Case(cs, "", "child-panics-then-more-calls", "")
 			if f := c19AfterPanic(nk, bad, gauge); f != "" {
 				ctx.Fail("every_child_sees_every_call_once_in_order", f, cs, nil)
+			}
+		}
+		// the first Flush / Capabilities calls on a new multi reporter, from four goroutines at once
+		for k := 0; k < 2; k++ {
+			cs := map[string]interface{}{"stream": "first-calls-at-once", "cached": k == 1}
+			ctx.Case(cs, "", "first-calls-at-once", "")
+			if f := c19FirstCalls(k == 1, ctx.N(1500, 10000)); f != "" {
+				ctx.Fail("every_flush_reaches_every_child_once", f, cs, nil)
 			}
 		}
 		// one reporter listed twice, children that are equal values
